@@ -1,1 +1,355 @@
-(** Model/Cli.v — placeholder, to be written. *)
+(** Model/Cli.v — the command line front end and the argument-to-context path.
+
+      pypyr.cli.get_parser / get_args     -> [parse_argv]   (the argparse *configuration*
+                                             of pypyr, for the documented call shapes)
+      pypyr.cli.main                      -> [cli_main]     (try / except ladder, exit codes)
+      sys.exit(main()) in __main__        -> [process_status]
+      pypyr.pipelinerunner.run            -> [api_first_step_context] (context construction)
+      Pipeline._get_parse_input           -> [get_parse_input]
+      Pipeline._prepare_context
+        + Pipeline._get_parsed_context    -> [prepare_context]
+
+    argparse itself is standard library.  [parse_argv] models what pypyr's parser definition
+    does with token lists of these shapes, and answers [Unsup] for everything else:
+      - tokens not starting with '-' are positional; the first run of positionals is
+        pipeline_name followed by context_args (nargs='*');
+      - the exact long options --groups (nargs='*'), --success, --failure, --dir, --logpath
+        (one value each), --log / --loglevel (one decimal value);
+      - a single "--" after which every token is positional (options first, "--", then the
+        pipeline name and context arguments).
+    Abbreviated options, --opt=value, tokens starting with '-' that are not one of the exact
+    option names, and positionals split in several runs are outside the model. *)
+From PV Require Export Parsers.
+Open Scope string_scope.
+
+(** * argv *)
+Record cli_args := mk_cli_args {
+  a_name : string;
+  a_ctx : list string;                (* context_args: a list, [] when none were given *)
+  a_groups : option (list string);
+  a_success : option string;
+  a_failure : option string;
+  a_dir : option string;              (* None = default config.cwd *)
+  a_log : option Z;
+  a_logpath : option string
+}.
+
+Inductive optname := OSuccess | OFailure | ODir | OLog | OLogPath.
+
+Inductive mode :=
+| MTop               (* between things *)
+| MGroups            (* collecting the values of --groups *)
+| MPos               (* inside the (first) run of positionals *)
+| MVal (o : optname) (* the next token is the value of [o] *)
+| MRest.             (* after "--": everything is positional *)
+
+Record pstate := mk_pstate {
+  p_mode : mode;
+  p_seen : bool;                (* a run of positionals has started *)
+  p_pos : list string;
+  p_groups : option (list string);
+  p_success : option string;
+  p_failure : option string;
+  p_dir : option string;
+  p_log : option Z;
+  p_logpath : option string
+}.
+
+Definition pstate0 : pstate := mk_pstate MTop false [] None None None None None None.
+
+Definition is_flag (s : string) : bool := String.prefix "-" s.
+
+Definition with_mode (m : mode) (st : pstate) : pstate :=
+  mk_pstate m (p_seen st) (p_pos st) (p_groups st) (p_success st) (p_failure st)
+            (p_dir st) (p_log st) (p_logpath st).
+
+Definition push_pos (tok : string) (st : pstate) : pstate :=
+  mk_pstate (p_mode st) true (p_pos st ++ [tok])%list (p_groups st) (p_success st)
+            (p_failure st) (p_dir st) (p_log st) (p_logpath st).
+
+Definition set_groups (g : option (list string)) (st : pstate) : pstate :=
+  mk_pstate (p_mode st) (p_seen st) (p_pos st) g (p_success st) (p_failure st)
+            (p_dir st) (p_log st) (p_logpath st).
+
+Definition push_group (tok : string) (st : pstate) : pstate :=
+  set_groups (Some (match p_groups st with Some g => g ++ [tok] | None => [tok] end)%list) st.
+
+(** type=int for --log: decimal digits only (signs, blanks and underscores are outside). *)
+Definition parse_int (s : string) : option Z :=
+  if isdigit s then Some (digits_to_Z s 0) else None.
+
+Definition set_opt (o : optname) (tok : string) (st : pstate) : res pstate :=
+  let st := with_mode MTop st in
+  match o with
+  | OSuccess => Ok (mk_pstate (p_mode st) (p_seen st) (p_pos st) (p_groups st) (Some tok)
+                              (p_failure st) (p_dir st) (p_log st) (p_logpath st))
+  | OFailure => Ok (mk_pstate (p_mode st) (p_seen st) (p_pos st) (p_groups st) (p_success st)
+                              (Some tok) (p_dir st) (p_log st) (p_logpath st))
+  | ODir => Ok (mk_pstate (p_mode st) (p_seen st) (p_pos st) (p_groups st) (p_success st)
+                          (p_failure st) (Some tok) (p_log st) (p_logpath st))
+  | OLog => match parse_int tok with
+            | Some z => Ok (mk_pstate (p_mode st) (p_seen st) (p_pos st) (p_groups st)
+                                      (p_success st) (p_failure st) (p_dir st) (Some z)
+                                      (p_logpath st))
+            | None => Unsup
+            end
+  | OLogPath => Ok (mk_pstate (p_mode st) (p_seen st) (p_pos st) (p_groups st) (p_success st)
+                              (p_failure st) (p_dir st) (p_log st) (Some tok))
+  end.
+
+Definition opt_of (tok : string) : option optname :=
+  if String.eqb tok "--success" then Some OSuccess
+  else if String.eqb tok "--failure" then Some OFailure
+  else if String.eqb tok "--dir" then Some ODir
+  else if String.eqb tok "--log" then Some OLog
+  else if String.eqb tok "--loglevel" then Some OLog
+  else if String.eqb tok "--logpath" then Some OLogPath
+  else None.
+
+(** One token. *)
+Definition step (st : pstate) (tok : string) : res pstate :=
+  match p_mode st with
+  | MRest => if String.eqb tok "--" then Unsup else Ok (push_pos tok st)
+  | MVal o => if is_flag tok then Unsup else set_opt o tok st
+  | m =>
+      if String.eqb tok "--" then
+        (if p_seen st then Unsup else Ok (with_mode MRest st))
+      else if String.eqb tok "--groups" then Ok (with_mode MGroups (set_groups (Some []) st))
+      else match opt_of tok with
+           | Some o => Ok (with_mode (MVal o) st)
+           | None =>
+               if is_flag tok then Unsup
+               else match m with
+                    | MGroups => Ok (push_group tok st)
+                    | MPos => Ok (push_pos tok st)
+                    | _ => if p_seen st then Unsup   (* a second run of positionals *)
+                           else Ok (push_pos tok (with_mode MPos st))
+                    end
+           end
+  end.
+
+Fixpoint run_tokens (st : pstate) (toks : list string) : res pstate :=
+  match toks with
+  | [] => Ok st
+  | t :: r => let* st' := step st t in run_tokens st' r
+  end.
+
+Definition finish (st : pstate) : res cli_args :=
+  match p_mode st with
+  | MVal _ => Unsup                       (* expected one argument *)
+  | _ =>
+      match p_pos st with
+      | [] => Unsup                       (* pipeline_name is required *)
+      | name :: ctx =>
+          Ok (mk_cli_args name ctx (p_groups st) (p_success st) (p_failure st) (p_dir st)
+                          (p_log st) (p_logpath st))
+      end
+  end.
+
+Definition parse_argv (argv : list string) : res cli_args :=
+  let* st := run_tokens pstate0 argv in finish st.
+
+(** * The call into the runner *)
+Record run_call := mk_run_call {
+  rc_name : string;
+  rc_args_in : args;
+  rc_parse_args : option bool;
+  rc_dict_in : option dict;
+  rc_groups : option (list string);
+  rc_success : option string;
+  rc_failure : option string;
+  rc_loader : option string;
+  rc_dir : string
+}.
+
+(** main: pypyr.pipelinerunner.run(pipeline_name=…, args_in=…, parse_args=True, groups=…,
+    success_group=…, failure_group=…, py_dir=…). *)
+Definition call_of (cwd : string) (a : cli_args) : run_call :=
+  mk_run_call (a_name a) (Some (a_ctx a)) (Some true) None (a_groups a) (a_success a)
+              (a_failure a) None (match a_dir a with Some d => d | None => cwd end).
+
+(** How the call into the runner ends, seen from [main]. *)
+Inductive run_end :=
+| Completed                              (* returned: every group ran *)
+| Stopped                                (* returned: a Stop instruction ended the run *)
+| RaisedException (ty msg : string)      (* an instance of Exception: type(e).__name__, str(e) *)
+| RaisedKeyboardInterrupt
+| RaisedSystemExit (code : option Z)     (* BaseException, not Exception *)
+| RaisedOtherBase (ty msg : string).     (* any other BaseException, e.g. GeneratorExit *)
+
+(** What [main] does. *)
+Inductive main_out :=
+| Returned (code : option Z) (out err : string) (traceback : bool)
+| Propagated (e : run_end).
+
+Definition esc : string := chr 27.
+Definition nl : string := chr 10.
+
+(** "\n" + "\033[91m{type(e).__name__}: {str(e)}\033[0;0m" + "\n" *)
+Definition err_text (ty msg : string) : string :=
+  nl ++ esc ++ "[91m" ++ ty ++ ": " ++ msg ++ esc ++ "[0;0m" ++ nl.
+
+(** [if parsed_args.log_level: if parsed_args.log_level < 10: traceback.print_exc()] *)
+Definition wants_traceback (log : option Z) : bool :=
+  match log with
+  | Some n => negb (Z.eqb n 0) && (n <? 10)%Z
+  | None => false
+  end.
+
+Definition main_of_end (log : option Z) (e : run_end) : main_out :=
+  match e with
+  | Completed | Stopped => Returned None "" "" false
+  | RaisedKeyboardInterrupt => Returned (Some 130%Z) nl "" false
+  | RaisedException ty msg => Returned (Some 255%Z) "" (err_text ty msg) (wants_traceback log)
+  | RaisedSystemExit _ | RaisedOtherBase _ _ => Propagated e
+  end.
+
+Definition cli_main (runner : run_call -> run_end) (cwd : string) (argv : list string)
+  : res main_out :=
+  let* a := parse_argv argv in
+  Ok (main_of_end (a_log a) (runner (call_of cwd a))).
+
+(** [sys.exit(main())]: None -> 0, an int -> that int (modulo 256 at the OS); an escaping
+    SystemExit carries its own code; any other escaping BaseException -> 1. *)
+Definition process_status (m : main_out) : Z :=
+  match m with
+  | Returned None _ _ _ => 0
+  | Returned (Some n) _ _ _ => n mod 256
+  | Propagated (RaisedSystemExit None) => 0
+  | Propagated (RaisedSystemExit (Some n)) => n mod 256
+  | Propagated _ => 1
+  end%Z.
+
+(** * From arguments to the context the first step sees *)
+Definition is_some {A} (o : option A) : bool := match o with Some _ => true | None => false end.
+
+(** Pipeline._get_parse_input *)
+Definition get_parse_input (parse_args : option bool) (args_in : args) (dict_in : option dict)
+  : bool :=
+  match parse_args with
+  | None => negb (args_falsy args_in && is_some dict_in)
+  | Some b => b
+  end.
+
+(** Pipeline._prepare_context (with _get_parsed_context inlined): [parser] is the pipeline's
+    context_parser, if it names one. *)
+Definition prepare_context (parse_input : bool) (parser : option parser_id) (a : args)
+           (ctx : dict) : res dict :=
+  if parse_input then
+    match parser with
+    | Some p =>
+        let* parsed := run_parser p a in
+        match parsed with
+        | Some d => if is_nil d then Ok ctx else Ok (dict_update ctx d)
+        | None => Ok ctx
+        end
+    | None => Ok ctx
+    end
+  else Ok ctx.
+
+(** pipelinerunner.run: [Context(args) if args else Context()] *)
+Definition initial_context (dict_in : option dict) : dict :=
+  match dict_in with
+  | Some d => d
+  | None => []
+  end.
+
+Definition api_first_step_context (parser : option parser_id) (parse_args : option bool)
+           (args_in : args) (dict_in : option dict) : res dict :=
+  prepare_context (get_parse_input parse_args args_in dict_in) parser args_in
+                  (initial_context dict_in).
+
+Definition cli_first_step_context (parser : option parser_id) (argv : list string) : res dict :=
+  let* a := parse_argv argv in
+  api_first_step_context parser (Some true) (Some (a_ctx a)) None.
+
+(** * Comparison with observations (used by the correspondence shards) *)
+Definition opt_eqb {A} (eqb : A -> A -> bool) (a b : option A) : bool :=
+  match a, b with
+  | None, None => true
+  | Some x, Some y => eqb x y
+  | _, _ => false
+  end.
+
+Definition strs_eqb := list_eqb String.eqb.
+
+Definition args_eqb (a b : args) : bool := opt_eqb strs_eqb a b.
+
+Definition run_call_eqb (a b : run_call) : bool :=
+  String.eqb (rc_name a) (rc_name b)
+  && args_eqb (rc_args_in a) (rc_args_in b)
+  && opt_eqb Bool.eqb (rc_parse_args a) (rc_parse_args b)
+  && opt_eqb dict_eqb (rc_dict_in a) (rc_dict_in b)
+  && opt_eqb strs_eqb (rc_groups a) (rc_groups b)
+  && opt_eqb String.eqb (rc_success a) (rc_success b)
+  && opt_eqb String.eqb (rc_failure a) (rc_failure b)
+  && opt_eqb String.eqb (rc_loader a) (rc_loader b)
+  && String.eqb (rc_dir a) (rc_dir b).
+
+Definition cli_args_eqb (a b : cli_args) : bool :=
+  String.eqb (a_name a) (a_name b)
+  && strs_eqb (a_ctx a) (a_ctx b)
+  && opt_eqb strs_eqb (a_groups a) (a_groups b)
+  && opt_eqb String.eqb (a_success a) (a_success b)
+  && opt_eqb String.eqb (a_failure a) (a_failure b)
+  && opt_eqb String.eqb (a_dir a) (a_dir b)
+  && opt_eqb Z.eqb (a_log a) (a_log b)
+  && opt_eqb String.eqb (a_logpath a) (a_logpath b).
+
+Definition run_end_eqb (a b : run_end) : bool :=
+  match a, b with
+  | Completed, Completed | Stopped, Stopped
+  | RaisedKeyboardInterrupt, RaisedKeyboardInterrupt => true
+  | RaisedException t m, RaisedException t' m'
+  | RaisedOtherBase t m, RaisedOtherBase t' m' => String.eqb t t' && String.eqb m m'
+  | RaisedSystemExit c, RaisedSystemExit c' => opt_eqb Z.eqb c c'
+  | _, _ => false
+  end.
+
+(** [out] is compared only when the observation has it (quiet log level). *)
+Definition main_out_eqb (m : main_out) (o : main_out) (cmp_out : bool) : bool :=
+  match m, o with
+  | Returned c out err tb, Returned c' out' err' tb' =>
+      opt_eqb Z.eqb c c' && (negb cmp_out || String.eqb out out') && String.eqb err err'
+      && Bool.eqb tb tb'
+  | Propagated e, Propagated e' => run_end_eqb e e'
+  | _, _ => false
+  end.
+
+(** argparse accepted the vector and produced [obs]. *)
+Definition argv_verdict (argv : list string) (obs : cli_args) : nat :=
+  verdict cli_args_eqb (parse_argv argv) (Ok obs).
+
+(** argparse rejected the vector (exit 2): the model must not claim to know the result. *)
+Definition argv_rejected_verdict (argv : list string) : nat :=
+  if is_unsup (parse_argv argv) then 2%nat else 1%nat.
+
+(** A full run of [main]: [obs_end] is how the (real) runner call ended, [obs_call] what it
+    was called with, [obs_main] what main did, [status] the exit status computed from it (or
+    the status of the real process), [obs_ctx] the context seen by the first step if one ran. *)
+Definition cli_verdict (cwd : string) (argv : list string) (parser : option parser_id)
+           (obs_end : run_end) (obs_call : option run_call) (obs_main : main_out)
+           (cmp_out : bool) (status : Z) (obs_ctx : option dict) : nat :=
+  match parse_argv argv with
+  | Unsup => 2%nat
+  | Err _ _ => 1%nat
+  | Ok a =>
+      let call := call_of cwd a in
+      let m := main_of_end (a_log a) obs_end in
+      let ok_call := match obs_call with Some c => run_call_eqb call c | None => true end in
+      let v_ctx :=
+        match obs_ctx with
+        | None => 0%nat
+        | Some c => verdict dict_eqb (cli_first_step_context parser argv) (Ok c)
+        end in
+      if ok_call && main_out_eqb m obs_main cmp_out && Z.eqb (process_status m) status
+      then v_ctx else 1%nat
+  end.
+
+Definition api_verdict (parser : option parser_id) (parse_args : option bool) (args_in : args)
+           (dict_in : option dict) (obs : res dict) : nat :=
+  verdict dict_eqb (api_first_step_context parser parse_args args_in dict_in) obs.
+
+Definition parse_input_verdict (parse_args : option bool) (args_in : args)
+           (dict_in : option dict) (obs : bool) : nat :=
+  if Bool.eqb (get_parse_input parse_args args_in dict_in) obs then 0%nat else 1%nat.
